@@ -336,9 +336,24 @@ def is_error_exit_c(stmt):
             pass                      # a static helper of the same unit (e.g. one that clears the out-parameters)
         elif s0.get('k') == 'IfStmt' and not s0.get('else') and _is_store(_single(s0.get('then') or {})):
             pass
+        elif _is_cleanup(s0):
+            pass                      # if (cd) FreeCompoundData(cd); else if (cdn) FreeCompoundDataNIST(cdn);
         else:
             return False
     return sets and rets
+
+
+def _is_cleanup(n):
+    """a statement that only releases things, possibly under tests of what there is to release"""
+    n = strip_casts(n) if isinstance(n, dict) else {}
+    k = n.get('k')
+    if k == 'CallExpr':
+        return n.get('callee') in MEMORY or (n.get('callee') or '').startswith('Free') or n.get('callee') in ('fclose',)
+    if k == 'CompoundStmt':
+        return bool(n.get('c')) and all(_is_cleanup(c) for c in n['c'])
+    if k == 'IfStmt':
+        return _is_cleanup(n.get('then') or {}) and (n.get('else') is None or _is_cleanup(n['else']))
+    return False
 
 
 def _single(n):
@@ -714,6 +729,20 @@ class Guards:
         self._branches = []
         self._order = []
         J = self.J
+        # a parameter that the body assigns (density = cdn->density) no longer stands for the caller's argument: a test of it is not a
+        # range of arguments that is rejected
+        assigned, pos = {}, {}
+        nbody = normalise_returns(f.get('body') or {}, is_error_exit_c if side == 'c' else self._java_exit)
+        for i_, n_ in enumerate(walk(nbody)):
+            pos[id(n_)] = i_
+            t_ = None
+            if n_.get('k') in ('BinaryOperator', 'CompoundAssignOperator') and (n_.get('op') or '').endswith('=') and n_.get('op') not in ('==', '!=', '<=', '>=') \
+                    and n_.get('c'):
+                t_ = strip_casts(n_['c'][0])
+            elif n_.get('k') == 'UnaryOperator' and n_.get('op') in ('++', '--') and n_.get('c'):
+                t_ = strip_casts(n_['c'][0])
+            if t_ is not None and t_.get('k') == 'DeclRefExpr' and t_.get('cls') == 'param':
+                assigned.setdefault(t_['name'], i_)
 
         def ok_leaf(n):
             n = strip_casts(n)
@@ -733,6 +762,8 @@ class Guards:
             k = n.get('k')
             if k == 'DeclRefExpr':
                 if n.get('cls') == 'param' and n['name'] in ps:
+                    if n['name'] in assigned and pos.get(id(n), 1 << 60) > assigned[n['name']]:
+                        return None           # read after the (first) assignment in the text of the body
                     return 'p%d' % ps.index(n['name'])
                 if n.get('cls') in ('global', 'enumc'):
                     return norm_table(n['name'])
@@ -874,7 +905,7 @@ class Guards:
                 if isinstance(d, dict) and d.get('init') is not None:
                     walk_stmt(d['init'], swallow)
 
-        walk_stmt(normalise_returns(f.get('body') or {}, is_error_exit_c if side == 'c' else self._java_exit), False)
+        walk_stmt(nbody, False)
         return guards, sites
 
     def early_returns(self, side, name):
